@@ -183,62 +183,65 @@ Definition set_dir (d : bool) (s : st) : st :=
   let s1 := if in_ctx s then record (USetDir (odir s)) s else s in
   set_odir s1 d.
 
-(* metabolites listed by reaction r, in the order of the identifier universe *)
-Definition mets_of (s : st) (r : Z) : list Z := filter (fun m => negb (qeqb (sto s r m) q0)) (mids s).
-Definition rxns_of (s : st) (m : Z) : list Z := filter (fun r => back s m r) (rids s).
+(* ---- structural operations.  Their effect on the content is written pointwise (the function the
+   Python loops compute); only the ORDER in which undo closures are registered needs the finite
+   identifier universe.                                                                        ---- *)
+Definition isz (q : Qc) : bool := qeqb q q0.
+Definition memz (k : Z) (l : list Z) : bool := existsb (Z.eqb k) l.
+Fixpoint assoc_q (m : Z) (l : list (Z * Qc)) : option Qc :=
+  match l with [] => None | (a, c) :: r => if a =? m then Some c else assoc_q m r end.
 
-(* Model._populate_solver([r]) for a reaction that is in the model and whose variables exist *)
+(* metabolites listed by reaction r / reactions a metabolite knows, in universe order *)
+Definition mets_of (s : st) (r : Z) : list Z := filter (fun m => negb (isz (sto s r m))) (mids s).
+Definition rxns_of (s : st) (m : Z) : list Z := filter (fun r => back s m r) (rids s).
+Definition record_all (us : list undo) (s : st) : st := fold_left (fun a u => record u a) us s.
+
+(* Model._populate_solver([r]) for a reaction whose variables exist: bounds, and the coefficients of
+   every metabolite the reaction lists                                                          *)
 Definition populate (r : Z) (s : st) : st :=
   let s1 := update_variable_bounds r s in
-  fold_left (fun a m => row_set m (R r) (- sto s r m)%Qc (row_set m (F r) (sto s r m) a)) (mets_of s r) s1.
+  set_co s1 (fun m n => if name_eqb n (F r) && negb (isz (sto s r m)) then sto s r m
+                        else if name_eqb n (R r) && negb (isz (sto s r m)) then (- sto s r m)%Qc
+                        else co s1 m n).
 
-(* Model.add_metabolites([m]) for a metabolite not yet in the model *)
-Definition model_add_met (m : Z) (s : st) : st :=
-  if min s m then s else
-  let s1 := set_min s (upd (min s) m true) in
-  let s2 := solver_add_cons m s1 in
-  let s3 := record (USolverRemoveCons m) s2 in
-  record (UMetsISub m) s3.
+(* Model.add_metabolites(ms) for metabolites that are not in the model: membership, rows, undo *)
+Definition model_add_mets (ms : list Z) (s : st) : st :=
+  let s1 := set_min s (fun m => min s m || memz m ms) in
+  let s2 := set_cin s1 (fun m => cin s1 m || memz m ms) in
+  record_all (flat_map (fun m => [USolverRemoveCons m; UMetsISub m]) ms) s2.
 
-(* Reaction.add_metabolites(l, combine, reversibly); keys are metabolite objects *)
-Fixpoint add_st_loop (r : Z) (l : list (Z * Qc)) (combine : bool) (s : st) (news : list Z) : st * list Z :=
-  match l with
-  | [] => (s, news)
-  | (m, c) :: l' =>
-      let listed := negb (qeqb (sto s r m) q0) in
-      if listed then
-        let v := if combine then (sto s r m + c)%Qc else c in
-        add_st_loop r l' combine (set_sto s (upd (sto s) r (upd (sto s r) m v))) news
-      else
-        let news' := if rin s r && negb (min s m) then news ++ [m] else news in
-        let s1 := set_sto s (upd (sto s) r (upd (sto s r) m c)) in
-        (* a detached reaction holds its own metabolite objects: the model's are untouched *)
-        let s2 := if rin s r then set_back s1 (upd (back s1) m (upd (back s1 m) r true)) else s1 in
-        add_st_loop r l' combine s2 news'
-  end.
-
+(* Reaction.add_metabolites(l, combine, reversibly); keys of l are distinct metabolite objects *)
+Definition new_coef (combine : bool) (old c : Qc) : Qc := if combine then (old + c)%Qc else c.
+Definition st_after (s : st) (r : Z) (l : list (Z * Qc)) (combine : bool) : Z -> Qc :=
+  fun m => match assoc_q m l with Some c => new_coef combine (sto s r m) c | None => sto s r m end.
 Definition touched (l : list (Z * Qc)) : list Z := map fst l.
-
-(* write the row coefficients of every metabolite the reaction lists or that was just touched
-   (a touched metabolite whose coefficient became 0 is still in _metabolites at that point) *)
-Definition write_rows (r : Z) (ms : list Z) (s : st) : st :=
-  fold_left (fun a m => if cin a m then row_set m (R r) (- sto s r m)%Qc (row_set m (F r) (sto s r m) a) else a) ms s.
-
-Definition drop_zero_backrefs (r : Z) (ms : list Z) (s : st) : st :=
-  fold_left (fun a m => if qeqb (sto a r m) q0 then set_back a (upd (back a) m (upd (back a m) r false)) else a) ms s.
+Definition news_of (s : st) (r : Z) (l : list (Z * Qc)) : list Z :=
+  filter (fun m => negb (min s m) && isz (sto s r m)) (touched l).
 
 Definition add_st (r : Z) (l : list (Z * Qc)) (combine reversibly : bool) (s : st) : st * res :=
   let old := sto s r in
-  let '(s1, news) := add_st_loop r l combine s [] in
-  let s2 := if rin s r then
-              let s2a := fold_left (fun a m => model_add_met m a) news s1 in
-              write_rows r (mets_of s2a r ++ touched l) s2a
-            else s1 in
-  let s3 := if rin s r then drop_zero_backrefs r (touched l) s2 else s2 in
-  if rctx s3 r && reversibly then
-    if combine then (record (USubSt r l) s3, Ok)
-    else (record (UResetSt r (map (fun mc => (fst mc, old (fst mc))) l)) s3, Ok)
-  else (s3, Ok).
+  let new := st_after s r l combine in
+  let s1 := set_sto s (upd (sto s) r new) in
+  let s4 :=
+    if rin s r then
+      (* metabolites new to the model are added to it (context-aware) *)
+      let s2 := model_add_mets (news_of s r l) s1 in
+      (* every listed or touched metabolite gets its row coefficients written *)
+      let s3 := set_co s2 (fun m n =>
+                  if cin s2 m && (negb (isz (new m)) || memz m (touched l)) then
+                    if name_eqb n (F r) then new m else if name_eqb n (R r) then (- new m)%Qc else co s2 m n
+                  else co s2 m n) in
+      (* back references: a metabolite new to the reaction learns about it, one whose coefficient
+         became zero forgets it                                                                *)
+      set_back s3 (fun m r' =>
+        if (r' =? r) && memz m (touched l) then
+          if isz (new m) then false else if isz (old m) then true else back s3 m r'
+        else back s3 m r')
+    else s1 in
+  if rctx s4 r && reversibly then
+    if combine then (record (USubSt r l) s4, Ok)
+    else (record (UResetSt r (map (fun mc => (fst mc, old (fst mc))) l)) s4, Ok)
+  else (s4, Ok).
 
 Definition neg_list (l : list (Z * Qc)) : list (Z * Qc) := map (fun mc => (fst mc, (- snd mc)%Qc)) l.
 
@@ -259,44 +262,56 @@ Definition set_obj (l : list (Z * Qc)) (additive : bool) (s : st) : st * res :=
 (* Model.add_reactions([r]) for a detached reaction object built from fresh metabolite objects *)
 Definition add_rxn (r : Z) (s : st) : st :=
   if rin s r then s else
+  let listed := fun m => negb (isz (sto s r m)) in
   let s1 := record (URxnOut r) (set_rin s (upd (rin s) r true)) in     (* r._model = self; context(setattr None) *)
-  let s2 := fold_left (fun a m =>
-              if min a m then record (UBackRemove m r) (set_back a (upd (back a) m (upd (back a m) r true)))
-              else model_add_met m (set_back a (upd (back a) m (fun r' => r' =? r))))
-            (mets_of s r) s1 in
-  let s3 := record (URxnOut r) s2 in                                    (* context(reactions.__isub__) *)
-  let s4 := record (USolverRemoveVars r) (solver_add_var (R r) (solver_add_var (F r) s3)) in
-  populate r s4.
+  (* metabolites already in the model learn about the reaction (undo recorded); the others are adopted:
+     the reaction's own fresh object, which knows only this reaction, joins the model              *)
+  let olds := filter (fun m => min s m) (mets_of s r) in
+  let news := filter (fun m => negb (min s m)) (mets_of s r) in
+  let s2 := set_back s1 (fun m r' => if listed m then (if min s m then (r' =? r) || back s m r' else (r' =? r))
+                                     else back s m r') in
+  let s3 := model_add_mets news (record_all (map (fun m => UBackRemove m r) olds) s2) in
+  let s4 := record (URxnOut r) s3 in                                    (* context(reactions.__isub__) *)
+  let s5 := record (USolverRemoveVars r) (solver_add_var (R r) (solver_add_var (F r) s4)) in
+  populate r s5.
 
-(* Model.remove_metabolites([m], destructive=False) *)
-Definition remove_met_nd (m : Z) (s : st) : st :=
-  if negb (min s m) then s else
-  let s1 := fold_left (fun a r => fst (add_st r [(m, (- sto a r m)%Qc)] true true a)) (rxns_of s m) s in
-  let s2 := set_min s1 (upd (min s1) m false) in
+(* the part of Model.remove_metabolites common to both modes: leave the model, drop the row *)
+Definition drop_met (m : Z) (s : st) : st :=
+  let s2 := set_min s (upd (min s) m false) in
   let s3 := record (USolverAddCons m) (solver_remove_cons m s2) in
   record (UMetsIAdd m) s3.
 
+(* Model.remove_metabolites([m], destructive=False): every reaction that lists m loses it *)
+Definition remove_met_nd (m : Z) (s : st) : st :=
+  if negb (min s m) then s else
+  let rs := rxns_of s m in
+  let s1 := set_sto s (fun r m' => if (m' =? m) && back s m r then q0 else sto s r m') in
+  let s2 := set_co s1 (fun m' n => if (m' =? m) && back s m (fst n) then q0 else co s1 m' n) in
+  let s3 := set_back s2 (upd (back s2) m (fun _ => false)) in
+  let s4 := record_all (map (fun r => USubSt r [(m, (- sto s r m)%Qc)]) rs) s3 in
+  drop_met m s4.
+
 (* Model.remove_reactions([r], remove_orphans) *)
+Definition orphaned (s : st) (r : Z) (m : Z) : bool :=
+  negb (isz (sto s r m)) && back s m r && min s m &&
+  forallb (fun r' => (r' =? r) || negb (back s m r')) (rids s).
 Definition remove_rxn (r : Z) (orphans : bool) (s : st) : st :=
   if negb (rin s r) then s else
   let c := oc s (F r) in
-  let s1 := if negb (qeqb c q0) then record (UObjCoefs r c) s else s in
+  let s1 := if negb (isz c) then record (UObjCoefs r c) s else s in
   let s2 := record (URxnIn r) (record (UPopulate r) s1) in
   let s3 := record (USolverAddVars r) (solver_remove_var (R r) (solver_remove_var (F r) s2)) in
   let s4 := set_rin s3 (upd (rin s3) r false) in
-  fold_left (fun a m =>
-    if back a m r then
-      let a1 := record (UBackAdd m r) (set_back a (upd (back a) m (upd (back a m) r false))) in
-      if orphans && negb (existsb (fun r' => back a1 m r') (rids a1)) then remove_met_nd m a1 else a1
-    else a) (mets_of s r) s4.
+  let ms := filter (fun m => back s m r) (mets_of s r) in
+  let s5 := set_back s4 (fun m r' => if (r' =? r) && negb (isz (sto s r m)) then false else back s4 m r') in
+  fold_left (fun a m => let a1 := record (UBackAdd m r) a in
+                        if orphans && orphaned s r m then drop_met m a1 else a1) ms s5.
 
-(* Model.remove_metabolites([m], destructive=True) *)
+(* Model.remove_metabolites([m], destructive=True): every reaction that lists m leaves the model *)
 Definition remove_met_d (m : Z) (s : st) : st :=
   if negb (min s m) then s else
   let s1 := fold_left (fun a r => remove_rxn r false a) (rxns_of s m) s in
-  let s2 := set_min s1 (upd (min s1) m false) in
-  let s3 := record (USolverAddCons m) (solver_remove_cons m s2) in
-  record (UMetsIAdd m) s3.
+  drop_met m s1.
 
 (* Reaction.__imul__(c) *)
 Definition imul (r : Z) (c : Qc) (s : st) : st :=
@@ -372,7 +387,7 @@ Definition step (s : st) (o : op) : st * res :=
   | RemoveRxn r orphans => (remove_rxn r orphans s, Ok)
   | AddMet m => let s0 := note_ids [] [m] s in
       if min s0 m then (s0, Ok) else
-      let s1 := model_add_met m (set_back s0 (upd (back s0) m (fun _ => false))) in (s1, Ok)
+      let s1 := model_add_mets [m] (set_back s0 (upd (back s0) m (fun _ => false))) in (s1, Ok)
   | RemoveMet m d => (if d then remove_met_d m s else remove_met_nd m s, Ok)
   | SetBounds r l u => set_bounds r l u s
   | SetLb r l => set_lb r l s
